@@ -559,6 +559,18 @@ class CourierClient(metaclass=func_utils.SingletonMeta):
     # `result()`, and `async_result()`.
     return len(self.pendings) < self.max_parallelism
 
+  def reserve(self) -> futures.Future[Any] | None:
+    """Atomically takes one unit of capacity, None when there is none left.
+
+    The returned placeholder counts as a pending call until it is cancelled.
+    """
+    with self._states_lock:
+      if not self.has_capacity:
+        return None
+      reservation = futures.Future()
+      self._pendings.append(StateWithTime(reservation, time.time()))
+      return reservation
+
   def send_heartbeat(
       self, client_address: str, is_alive: bool = True
   ) -> futures.Future[None]:
@@ -741,12 +753,15 @@ class CourierClient(metaclass=func_utils.SingletonMeta):
       task: GeneratorTask,
       *,
       generator_result_queue: queue.SimpleQueue[Any],
+      reservation: futures.Future[Any] | None = None,
   ) -> AsyncIterator[Any]:
     """Iterates the generator task."""
-    # Artificially insert a pending state to block other tasks.
+    # Artificially insert a pending state to block other tasks, unless the
+    # caller has reserved the capacity already (see `reserve`).
     with self._states_lock:
-      generator_state = futures.Future()
-      self._pendings.append(StateWithTime(generator_state, time.time()))
+      generator_state = reservation or futures.Future()
+      if reservation is None:
+        self._pendings.append(StateWithTime(generator_state, time.time()))
     batch_cnt = 0
     try:
       init_state = self.call(
